@@ -26,6 +26,8 @@ Attempts to follow the SMTP server RFCs.
 
 from __future__ import absolute_import
 
+from gevent import Timeout
+
 from slimta.envelope import Envelope
 from slimta.smtp.server import Server
 from slimta.smtp.reply import Reply
@@ -277,7 +279,12 @@ class SmtpEdge(EdgeServer):
             pass
         finally:
             if smtp_server:
-                smtp_server.io.close()
+                try:
+                    # Closing an encrypted socket waits for the client.
+                    with Timeout(self.command_timeout):
+                        smtp_server.io.close()
+                except Timeout:
+                    smtp_server.io.socket.close()
 
 
 # vim:et:fdm=marker:sts=4:sw=4:ts=4
